@@ -5,7 +5,7 @@
     are Model/Pred.v (tied to the Go code by the correspondence run).
     [FR x] is the real number the float64 [x] denotes; [detR a b c] the exact determinant. *)
 From Coq Require Import ZArith Reals Floats Bool.
-From Geo Require Import Base.GoPrim Base.F64 Base.Exact Gen.R3 Gen.S2Pred Model.Pred Proofs.C02_Exact Proofs.C02_Float.
+From Geo Require Import Base.GoPrim Base.F64 Base.Exact Gen.R3 Gen.S2Pred Model.Pred Proofs.C02_Exact Proofs.C02_Float Proofs.C02_SoS.
 Local Open Scope R_scope.
 
 (** exact stage ------------------------------------------------------------------------- *)
@@ -149,3 +149,24 @@ Theorem sign_dot_prod_is_exact : H_TRIAGE_DOT -> forall a b, finite a -> finite 
   norm2R a <= 2 -> norm2R b <= 2 -> sign_dot_prod a b = sgnR (dotR a b).
 Proof. exact sign_dot_prod_spec. Qed.
 Print Assumptions sign_dot_prod_is_exact.
+
+(** symbolic perturbation ------------------------------------------------------------------
+    [pert_det_ranked a b c eps]: determinant of the three rows, the row of lexicographic rank
+    k (0, 1, 2 among the three) moved by (eps^(4*8^k), eps^(2*8^k), eps^(8^k)) in (x, y, z). *)
+Theorem perturbed_determinant_is_this_polynomial : forall ax ay az bx by_ bz cx cy cz e,
+  pert ax ay az bx by_ bz cx cy cz e = peval (sos_poly ax ay az bx by_ bz cx cy cz) e.
+Proof. exact sos_expansion. Qed.
+Print Assumptions perturbed_determinant_is_this_polynomial.
+
+Theorem table_returns_lowest_order_nonzero_coefficient : forall ax ay az bx by_ bz cx cy cz,
+  det3 ax ay az bx by_ bz cx cy cz = 0 ->
+  table_R ax ay az bx by_ bz cx cy cz = first_nz (sos_poly ax ay az bx by_ bz cx cy cz).
+Proof. exact table_first_nz. Qed.
+Print Assumptions table_returns_lowest_order_nonzero_coefficient.
+
+Theorem exact_sign_is_sign_of_infinitesimally_perturbed_determinant : forall a b c,
+  finite a -> finite b -> finite c -> distinct3 a b c ->
+  exists e0, 0 < e0 /\ forall e, 0 < e < e0 ->
+    exact_sign a b c = sgnR (pert_det_ranked a b c e) /\ pert_det_ranked a b c e <> 0.
+Proof. exact exact_sign_sos. Qed.
+Print Assumptions exact_sign_is_sign_of_infinitesimally_perturbed_determinant.
